@@ -17,6 +17,9 @@ func (t Tail) String() string {
 
 // Append the object to a byte slice.
 func (t Tail) Append(b []byte) []byte {
+	if t.Value == nil {
+		return append(b, "nil"...)
+	}
 	return t.Value.Append(b)
 }
 
@@ -32,6 +35,9 @@ func (t Tail) Simplify() (a any) {
 // Equal returns true if this Object and the other are equal in value.
 func (t Tail) Equal(other Object) bool {
 	if ot, ok := other.(Tail); ok {
+		if t.Value == nil {
+			return ot.Value == nil
+		}
 		return t.Value.Equal(ot.Value)
 	}
 	return false
@@ -39,10 +45,16 @@ func (t Tail) Equal(other Object) bool {
 
 // Hierarchy returns the class hierarchy as symbols for the instance.
 func (t Tail) Hierarchy() []Symbol {
+	if t.Value == nil {
+		return []Symbol{Symbol("null"), ListSymbol, SequenceSymbol, TrueSymbol}
+	}
 	return t.Value.Hierarchy()
 }
 
 // Eval the object.
 func (t Tail) Eval(s *Scope, depth int) Object {
+	if t.Value == nil {
+		return nil
+	}
 	return t.Value.Eval(s, depth)
 }
